@@ -5,7 +5,7 @@
    Findings: F26 (ghost object: C02_refuted_F26), F25 (unnamed kubernetes bindings of one
    group share the default name: C02_refuted_F25); F13 (repeated names) is repaired.
    (4) bindings with namespace.labelSelector: the informer set follows the set of matching
-   namespaces (theorems C02_dyn_...); the namespace-level ghost (C02_dyn_refuted_nsghost) is reported. *)
+   namespaces (theorems C02_dyn_...); the namespace-level ghost (C02_dyn_refuted_F32) is reported. *)
 From Verif Require Import Common C02_Model C02_Spec C02_Proofs C02_DynProofs.
 From Verif Require C01_Model C01_Spec C01_Proofs.
 Open Scope N_scope.
@@ -89,9 +89,9 @@ Print Assumptions C02_dyn_views_are_matching_partial.
 
 (* the exception: a namespace found by CreateInformers' initial namespace list that stops
    matching before Start keeps its informers (the namespace informer never reports it) *)
-Theorem C02_dyn_refuted_nsghost : exists i, T_nsghost i = true /\ P_dyn i (dyn_views i) false = false.
+Theorem C02_dyn_refuted_F32 : exists i, T_nsghost i = true /\ P_dyn i (dyn_views i) false = false.
 Proof. exact nsghost_refuted. Qed.
-Print Assumptions C02_dyn_refuted_nsghost.
+Print Assumptions C02_dyn_refuted_F32.
 
 Example C02_dyn_hyp_met :
   let i := mkDynIn [2; 2] [(1, 2, 1); (2, 2, 5)] [(1, true); (2, false)] None
